@@ -9,7 +9,7 @@ from __future__ import annotations
 from dataclasses import dataclass, field
 from typing import Callable, Dict, List, Optional, Tuple
 
-from . import bd, bw, bx, cc, er, ev, ex, fs, fw, ha, hx, hy, hz, lk, on, oo, rcw, rd, rt, rw, sh, st, vw, wk
+from . import bd, bw, bx, cc, cw, er, ev, ex, fs, fw, ha, hx, hy, hz, lk, on, oo, rcw, rd, rt, rw, sh, st, vw, wk
 
 
 @dataclass
@@ -147,6 +147,7 @@ RULE_GROUPS: Dict[str, Callable] = {
     'bw.recurrent_validations': bw.rule_recurrent_validations,
     'ha.active_mark_released': ha.rule_active_mark_released,
     'rcw.recurrent_worlds': rcw.rule_recurrent_worlds,
+    'cw.chart_runs_share_nothing': cw.rule_chart_runs_share_nothing,
     'ha.task_registry_only_grows': ha.rule_task_registry_only_grows,
     'ha.executor_wrapper_transparent': ha.rule_executor_wrapper_transparent,
     'ha.no_blocking_wait_on_loop': ha.rule_no_blocking_wait_on_loop,
@@ -262,6 +263,7 @@ RULES: Dict[str, Tuple[str, str]] = {
     'ER-11': ('ha.task_registry_only_grows', 'the registry of created tasks, which run() scans for failures, is only added to during a run'),
     'CC-13': ('ha.no_blocking_wait_on_loop', 'nothing that runs on the event-loop thread waits for another thread'),
     'SH-12': ('sh.memoisation', 'the key of a memoised method tells apart calls that differ in an argument'),
+    'SH-13': ('cw.chart_runs_share_nothing', 'two runs of one chart without meta / input_kwargs get new mutable context parts, none kept by the chart'),
     'SH-11': ('ha.two_runs_share_no_mutable_state', 'two run managers of one DAG share no mutable object besides the DAG'),
     'ER-13': ('ha.caught_error_not_rendered', 'no handler on the run path renders (str / f-string) the exception it caught'),
     'ER-12': ('ha.verdict_before_own_cancellation', 'the verdict of the run is read before the engine cancels its own tasks'),
@@ -771,6 +773,7 @@ _add('C14', 'ER-2')
 _add('C16', 'BN-7')
 _add('C15', 'BN-7')
 _add('C07', 'BN-7')
+_add('C07', 'SH-13')
 _add('C11', 'RC-11')
 _add('C02', 'RC-11')
 _add('C02', 'PB-1')
